@@ -146,6 +146,18 @@ func verifC10FindProject(path string) (*Project, error) {
 	return nil, nil
 }
 
+// verifC10FindProjectRoot: the same layout for trees in which Projects.At looks for the
+// nearest repository root itself (findProjectRoot) and reuses the known project with that root.
+func verifC10FindProjectRoot(path string) string {
+	d := absPath(path)
+	for _, root := range []string{"/r", "/s"} {
+		if d == root || (len(d) > len(root) && d[:len(root)+1] == root+"/") {
+			return root
+		}
+	}
+	return ""
+}
+
 // The file content is a marker; Parse is replaced by the real workflow parser
 // on the YAML node tree the marker stands for (the label in it is symbolic, so
 // the text cannot go through the native YAML decoder).
@@ -170,7 +182,9 @@ func verifC10Parse(b []byte) (*Workflow, []*Error) {
 func verifC10Digest(errs []*Error, path string) string {
 	var mine []*Error
 	for _, e := range errs {
-		if e.Filepath == path {
+		// the linter reports paths relative to the working directory where it can (the harnesses'
+		// working directory is / or the repository root)
+		if e.Filepath == path || absPath(e.Filepath) == path {
 			mine = append(mine, e)
 		}
 	}
@@ -213,13 +227,21 @@ func HarnessC10MultiFile() {
 	verifSetCwd("/")
 	verifOverride("os.ReadFile", verifC10ReadFile)
 	verifOverride("findProject", verifC10FindProject)
+	verifOverride("findProjectRoot", verifC10FindProjectRoot)
 	verifOverride("loadRepoConfig", verifC10RepoConfig)
 	single := make([]string, len(paths))
+	diagnosed := false
 	for k, p := range paths {
 		l := verifLinter("", "", "")
 		errs, err := l.LintFile(p, nil)
 		verifCheck(err == nil, "lint-failed")
 		single[k] = verifC10Digest(errs, p)
+		if len(errs) > 0 && len(single[k]) > 0 {
+			diagnosed = true
+		}
+	}
+	if diagnosed {
+		verifReach("diagnosed") // vacuity guard: the digests are not all empty
 	}
 	verifFreeze("configuration of /r", cfgR)
 	verifFreeze("configuration of /s", cfgS)
@@ -349,6 +371,9 @@ func verifC10StatTree(name string) (os.FileInfo, error) {
 // either kind.
 func HarnessC10FindProject() {
 	gs, ws, gr, wr := verifChoose("sub.git", 3), verifChoose("sub.workflows", 3), verifChoose("r.git", 3), verifChoose("r.workflows", 3)
+	// whether a file of /r itself was resolved through the same Projects before (the enclosing
+	// repository is then already known when the nested file arrives)
+	outerFirst := verifChoose("outer-first", 2)
 	want := ""
 	switch {
 	case ws == 1 && gs != 0:
@@ -357,7 +382,7 @@ func HarnessC10FindProject() {
 		want = "/r"
 	}
 	if verifIsNative() {
-		verifC10NativeFindProject(gs, ws, gr, wr, want)
+		verifC10NativeFindProject(gs, ws, gr, wr, outerFirst, want)
 		return
 	}
 	verifC10Tree = map[string]int{"/r/sub/.git": gs, "/r/sub/.github/workflows": ws, "/r/.git": gr, "/r/.github/workflows": wr}
@@ -373,6 +398,18 @@ func HarnessC10FindProject() {
 		got = p.RootDir()
 	}
 	verifCheckf(got == want, "file-assigned-to-the-wrong-repository", got+" <> "+want)
+	ps := NewProjects()
+	if outerFirst == 1 {
+		_, err := ps.At("/r/.github/workflows/o.yml")
+		verifCheck(err == nil, "find-project-failed")
+	}
+	p, err = ps.At("/r/sub/.github/workflows/w.yml")
+	verifCheck(err == nil, "find-project-failed")
+	got = ""
+	if p != nil {
+		got = p.RootDir()
+	}
+	verifCheckf(got == want, "file-of-a-nested-repository-attributed-to-the-enclosing-one", got+" <> "+want)
 }
 
 // HarnessC10SameActionPath: two repositories that each have a well-formed
@@ -398,6 +435,7 @@ func HarnessC10SameActionPath() {
 	verifOverride("os.ReadFile", verifC10ReadFile)
 	verifOverride("os.Stat", verifC10StatTree)
 	verifOverride("findProject", verifC10FindProject)
+	verifOverride("findProjectRoot", verifC10FindProjectRoot)
 	verifOverride("loadRepoConfig", verifC10RepoConfig)
 	single := make([]string, len(paths))
 	for k, p := range paths {
